@@ -115,6 +115,27 @@ theorem delivered_iff (w : World) (j : Nat) (s : Trxd.TxMsg) (src : Trx) (fnI : 
       List.countP_pos_iff.2 ⟨_, hmem, toDataPeer_dataDgram tk b⟩
     omega
 
+/-- C02 in one equation.  For bursts whose simulated metadata stay inside the protocol ranges
+(`RadioOk` for every recipient; frame and timeslot number in range): transceiver `k` gets exactly
+one datagram on its DATA socket iff it is another, powered-on transceiver listening in frame FN
+on the sender's transmit frequency of frame FN — with the one exception C18 describes: a
+suppressed burst yields nothing on a version-0 link (on a version-1 link the one datagram is the
+NOPE.ind).  Everybody else gets nothing. -/
+theorem routing_exact (w : World) (j : Nat) (s : Trxd.TxMsg) (src : Trx) (fnI tn : Int)
+    (bits : List Nat) (w' : World) (out : List Dgram)
+    (hj : w.trxs[j]? = some src) (hfn : s.fn = some fnI) (htn : s.tn = some tn)
+    (hb : s.burst = some bits) (hbits : ∀ b ∈ bits, b < 256) (hok : FreqOk w fnI.toNat)
+    (hwf : ∀ t ∈ w.trxs, DropWF t) (hd : DistinctDataPorts w)
+    (f0 : 0 ≤ fnI) (f1 : fnI < 2715648) (n0 : 0 ≤ tn) (n1 : tn ≤ 7)
+    (hradio : ∀ k ∈ recipients w j fnI.toNat, ∀ r, w.trxs[k]? = some r →
+      RadioOk src r s.pwr bits.length)
+    (h : forwardMsg w j s = .ok (w', out)) (k : Nat) (tk : Trx) (hk : w.trxs[k]? = some tk) :
+    deliveredTo tk out =
+      if k ∈ recipients w j fnI.toNat ∧ ¬ (suppressed src tk fnI = true ∧ tk.hdrVer = 0)
+      then 1 else 0 :=
+  forwardMsg_exact w j s src fnI tn bits w' out hj hfn htn hb hbits hok hwf hd f0 f1 n0 n1 hradio h
+    k tk hk
+
 /-- nothing is delivered back to the sender -/
 theorem nothing_to_sender (w : World) (j : Nat) (s : Trxd.TxMsg) (src : Trx) (fnI : Int)
     (bits : List Nat) (w' : World) (out : List Dgram)
